@@ -1,6 +1,7 @@
 package main
 
 import (
+	"golang.org/x/tools/go/ssa"
 	"context"
 	"go/token"
 	"go/types"
@@ -115,6 +116,17 @@ func specMentions(p *Prog, fs *FuncSpec, prop string) bool {
 	for _, r := range fs.Refines {
 		if len(r.Props) > 0 && hasProp(r.Props, prop) {
 			return true
+		}
+	}
+	// a default closure proved against a field contract is verified under every property that
+	// field contract's clauses are tagged with
+	if fs.Implements != "" {
+		if fc, ok := p.specs.Funcs[fs.Implements]; ok {
+			for _, c := range fc.Ensures {
+				if len(c.Props) > 0 && hasProp(c.Props, prop) {
+					return true
+				}
+			}
 		}
 	}
 	return false
@@ -573,9 +585,13 @@ func aggregate(pr *PropRun) []*NamedResult {
 		}
 		if o.Kind == "cover" {
 			// covered as soon as one path can satisfy the hypothesis
-			if o.Result.Status == "sat" {
+			switch {
+			case o.Result.Status == "sat":
 				nr.Status = "covered"
-			} else if nr.Status == "discharged" {
+			case nr.Status == "covered":
+			case o.Result.Status != "unsat":
+				nr.Status = "cover-undecided" // a solver could not decide satisfiability: no verdict
+			case nr.Status == "discharged":
 				nr.Status = "never-covered"
 			}
 			continue
@@ -948,6 +964,77 @@ func sweepFuncs(p *Prog, have []string) []string {
 		seen[name] = true
 		out = append(out, name)
 	}
+	// goroutine bodies start with no lock held whatever their spawner holds: every function or
+	// closure launched by a go statement in these packages is an entry point of its own
+	for _, f := range p.fns {
+		pk := f.Pkg
+		if pk == nil && f.Parent() != nil {
+			pk = f.Parent().Pkg
+		}
+		if pk == nil || !pkgs[shortPkg(pk.Pkg)] {
+			continue
+		}
+		for _, b := range f.Blocks {
+			for _, in := range b.Instrs {
+				var callee *ssa.Function
+				switch in := in.(type) {
+				case *ssa.Go:
+					switch v := in.Call.Value.(type) {
+					case *ssa.Function:
+						callee = v
+					case *ssa.MakeClosure:
+						callee, _ = v.Fn.(*ssa.Function)
+					}
+				case *ssa.MakeClosure:
+					// a closure that escapes (stored, returned, or handed to code we do not see)
+					// may be run by anyone at any time: it is an entry point too. Closures that
+					// are only called or deferred on the spot run under whatever their creator
+					// holds and are analysed there.
+					if closureEscapes(in) {
+						callee, _ = in.Fn.(*ssa.Function)
+					}
+				}
+				if callee == nil || len(callee.Blocks) == 0 {
+					continue
+				}
+				n := fnName(callee)
+				if _, known := p.fns[n]; known && !seen[n] {
+					seen[n] = true
+					out = append(out, n)
+				}
+			}
+		}
+	}
 	sort.Strings(out)
 	return out
+}
+
+
+// closureEscapes: some use of the closure value is not "call it here" or "defer it here".
+func closureEscapes(mc *ssa.MakeClosure) bool {
+	refs := mc.Referrers()
+	if refs == nil {
+		return true
+	}
+	for _, r := range *refs {
+		switch u := r.(type) {
+		case *ssa.Call:
+			if u.Call.Value == ssa.Value(mc) {
+				continue
+			}
+			return true // passed as an argument: the callee may store it or hand it on
+		case *ssa.Defer:
+			if u.Call.Value == ssa.Value(mc) {
+				continue
+			}
+			return true
+		case *ssa.Go:
+			continue // handled as a goroutine body
+		case *ssa.DebugRef:
+			continue
+		default:
+			return true
+		}
+	}
+	return false
 }
